@@ -693,6 +693,20 @@ def check_c03(pid, tier, seed, replay=None):
         if rng.random() < 0.2:
             s.files.append('T'); s.lines.insert(2, f'open 1 {fid("T")} seek'); s.lines.insert(3, 'xl 1 0'); s.lines.insert(4, 'xl 0 1'); s.lines.insert(-2, 'clear 1')
         scs.append(s)
+    # lying granule positions on streams larger than one probe step: the final position negative / zero / tiny / huge (a link of computed length 0 or less
+    # than its first position), or a page in the middle claiming a position far outside the link; then every kind of seek to 0, to the end and into the middle
+    k = 0
+    for f in ('H', 'Q', 'ZA', 'ZE', 'F'):
+        for page, val in ((9999, -2147483648), (9999, 0), (9999, 1), (9999, 2147483647), (5, 2147483647), (5, -5), (3, 100000), (9998, 0)):
+            if quick and (k + seed) % 3: k += 1; continue
+            key = f'ZG{k}'; C.FILES[key] = C.FILES[f]; k += 1
+            ls = [f'open 0 {fid(key)} seek', 'q 0']
+            for t in ('0', 'e:0', 'e:-1', 'f:0:1:2:0', '1'):
+                for op in ('ps', 'psp', 'psl'): ls += [f'{op} 0 {t}', 'rf 0 64']
+            ls += ['ts 0 0 0 0', 'tsp 0 0 100 0', 'rs 0 oe:-1', 'rf 0 4096', 'clear 0', 'clear 0']
+            s = Scenario(f'gplie-{f}-{page}-{val}', [key], ls, 'lying-granule-positions', budget=30, tags=('damaged',))
+            s.pre = [f'dmg {fid(key)} setgp {page} {val}'] + ([f'dmg {fid(key)} drop {rng.randrange(3, 12)} 0'] if k % 2 else [])
+            scs.append(s)
     # undamaged chains (odd link lengths, 0/1-sample links, extreme serial numbers) under the same random call mix with half rate switched on early:
     # termination and memory safety must not depend on the stream being damaged
     for i in range(48 if quick else 600):
